@@ -134,6 +134,14 @@ def gen_min_cases(rng, n):
             out[-1]["bounds_list"] = True      # the interval handed over as a list, not a tuple
         if rng.random() < 0.2:
             out[-1]["x0_array"] = True         # the start handed over as a one-element numpy array (scipy style)
+        elif kind == 0 and float(b).is_integer() and rng.random() < 0.5:
+            # the start is the minimum itself, handed over as a Python INT: nothing to iterate, the cost is asked at the int
+            out[-1]["x0"] = float(b)
+            out[-1]["x0_int"] = True
+            if bounds is not None:
+                lo_, hi_ = bounds
+                if (lo_ is not None and b < lo_) or (hi_ is not None and b > hi_):
+                    out[-1].pop("x0_int")
         if rng.random() < 0.3:
             # the parameter being minimised over need not be called x: a name spelled like a mathematical constant in a case the
             # expression language does NOT treat as one (e, E, pi, Pi, infinity) is an ordinary name, like lamda or N_1
